@@ -14,14 +14,20 @@ RULE = ("center_all on tables of 1..24 chromosomes (chr / plain names, or none n
         "rows; the decision logic of compare_sex_chromosomes with scipy's Mood statistics as parameters; plus an oracle "
         "run of guess_xx on seeded noisy samples (sd 0.01..0.3, 40..400 X bins, both sexes x reference sexes x +-Y x "
         "+-weights) -- search on the real code, not proof -- each also through shift_xx with the sex left to be inferred "
-        "and through the `sex` report (do_sex; one in three via `cnvkit.py sex FILE [-y] -o OUT`); a share of the centring "
+        "and through the `sex` report (do_sex; one in three via `cnvkit.py sex FILE [-y] -o OUT`); bounded ADVERSARIAL noise "
+        "(every bin within d of its level, d inside and outside the proved margin 1/4; flat / tiny / noisy autosomes; X noise "
+        "pushed towards the other sex) against the margin theorem and the exact Mood-table model (`sex_margin`); a share of the centring "
         "cases through `cnvkit.py call -m none --center [EST] [--drop-low-coverage] [--diploid-parx-genome G]`. non-trivial = table has >= 2 chromosomes and a sex "
         "chromosome or a null-coverage bin; distinct by hash")
 EXHAUSTIVE = {"quick": False, "thorough": False}
 ASSUMPTIONS = ["mode/biweight estimators: only the clauses 'uniform shift' and 're-centering changes nothing' are checked "
                "(their values are C19's subject); mode cases are generated with a clear density peak",
-               "sex inference under noise is a statistical claim: covered by an oracle run on the real code only"]
-TRUSTED_EXTRA = ["scipy.stats.median_test (Mood) statistic, gaussian_kde", "pandas Series.median/mean"]
+               "sex inference under noise is a statistical claim: covered by an oracle run on the real code only, EXCEPT on "
+               "the median-difference path (all Mood tables degenerate), where the margin theorem (every bin within d < 1/4 "
+               "of its level, no distribution assumed) is evaluated as a spec clause on the real decision"]
+TRUSTED_EXTRA = ["scipy.stats.median_test (Mood) statistic, gaussian_kde", "pandas Series.median/mean",
+                 "sex_margin on tables with a weight column: the five weighted medians are taken from the real "
+                 "descriptives.weighted_median (parameters of the model; C19 verifies that function)"]
 ESTS = ("median", "mean", "biweight", "mode")
 
 
@@ -93,6 +99,69 @@ def _sex_table(rng, female, hapx, with_y, with_w, sd, nx, par=None, style=None):
     return rows
 
 
+def _margin_case(rng, k):
+    """bounded ADVERSARIAL noise (no distribution): every bin within d of its level; the theorem
+    `sex_inferred_within_margin` (d < 1/4, median-difference path) says the decision cannot flip.  Flavours of the
+    autosomes: flat (all at one value: every Mood table is degenerate, the path of the theorem), tiny tables, and
+    bounded-noise autosomes (Mood path: only model = code is compared there).  Also radii outside the margin."""
+    female, hapx, with_y = rng.random() < .5, rng.random() < .5, rng.random() < .6
+    style = rng.choice(["chr", ""])
+    a = rng.choice([0.0, 0.0, 0.5, -0.25, round(rng.uniform(-1, 1), 3)])
+    d = rng.choice([0.0, 0.05, 0.125, 0.2, 0.24, 0.2499, 0.2499, 0.26, 0.3, 0.45])
+    flavour = rng.choice(["flat", "flat", "flat", "tiny", "bounded"])
+    pattern = rng.choice(["towards-other", "towards-other", "up", "down", "alternate", "random", "one-outlier"])
+    xl = a + (0 if female else -1) + (1 if hapx else 0)
+
+    def noise(level, i, n, other):
+        sgn = 1.0 if other > level else -1.0
+        if pattern == "towards-other":
+            return sgn * d
+        if pattern == "up":
+            return d
+        if pattern == "down":
+            return -d
+        if pattern == "alternate":
+            return d if i % 2 else -d
+        if pattern == "one-outlier":
+            return sgn * d if i else -sgn * d
+        return rng.uniform(-d, d)
+    rows = []
+    nchrom = rng.randint(1, 4)
+    for c in range(1, nchrom + 1):
+        n = rng.randint(1, 3) if flavour == "tiny" else rng.randint(8, 30)
+        for i in range(n):
+            v = a if flavour != "bounded" else a + rng.choice([-d, d, rng.uniform(-d, d)])
+            rows.append([style + str(c), i * 1000, i * 1000 + 500, v])
+    nx = rng.randint(1, 3) if flavour == "tiny" else rng.randint(1, 7)
+    other_x = a + (0 if not female else -1) + (1 if hapx else 0)
+    for i in range(nx):
+        rows.append([style + "X", i * 1000, i * 1000 + 500, xl + noise(xl, i, nx, other_x)])
+    if with_y:
+        ny = rng.randint(1, 5)
+        for i in range(ny):
+            if female:
+                v = a - 2 - rng.choice([0.0, 0.0, 1.0, rng.uniform(0, 18)])
+            else:
+                v = a + noise(a, i, ny, a - 3)
+            rows.append([style + "Y", i * 1000, i * 1000 + 500, v])
+    # the radius actually realised (exact): largest deviation from the levels
+    F = Fraction
+    dev = [abs(F(r[3]) - F(a)) for r in rows if r[0].replace("chr", "").isdigit()]
+    dev += [abs(F(r[3]) - (F(a) + (0 if female else -1) + (1 if hapx else 0))) for r in rows if r[0].endswith("X")]
+    if not female:
+        dev += [abs(F(r[3]) - F(a)) for r in rows if r[0].endswith("Y")]
+    dmax = max(dev)
+    # four tables in ten carry a weight column (compare_to_auto then takes descriptives.weighted_median): weights
+    # skewed so that the heavy bins are the ones pushed furthest
+    with_w = rng.random() < 0.4
+    if with_w:
+        for r in rows:
+            r.append(rng.choice([1.0, 0.05, 0.5, round(rng.uniform(0.01, 1), 3)]))
+    return {"op": "sex_margin", "tag": "margin-%s-%s%s" % (flavour, "in" if 4 * dmax < 1 else "out", "-w" if with_w else ""),
+            "in": {"rows_f": rows, "hapX": hapx, "female": female, "a": frac(a), "d": "%d/%d" % (dmax.numerator, dmax.denominator),
+                   "flavour": flavour, "pattern": pattern, "with_w": with_w}}
+
+
 def gen_cases(rng, tier):
     n = {"quick": 60, "thorough": 600, "search": 100}[tier]
     cases = []
@@ -153,6 +222,9 @@ def gen_cases(rng, tier):
             for i in range(rng.randint(1, 6)):
                 rows.append([style + "Y", i * 1000, i * 1000 + 500, round((0 if not female else -4) + rng.gauss(0, sd), 3), 1.0])
         cases.append({"op": "sex", "tag": "sex-logic", "in": {"rows_f": rows, "hapX": hapx, "par": None, "weighted": False}})
+    mrng = random.Random(rng.random())
+    for k in range({"quick": 240, "thorough": 2400, "search": 400}[tier]):
+        cases.append(_margin_case(mrng, k))
     return cases
 
 
@@ -293,6 +365,44 @@ def run_impl(case):
             finally:
                 shutil.rmtree(d, ignore_errors=True)
         return {"xx": xx, "shift_same": same, "x_minus_auto": dx, "report": report}
+    if op == "sex_margin":
+        from scipy.stats import median_test
+        from cnvlib import commands
+        cols = ["chromosome", "start", "end", "gene", "log2"] + (["weight"] if i.get("with_w") else [])
+        rows = [[r[0], r[1], r[2], "G"] + list(r[3:]) for r in i["rows_f"]]
+        cna = _cna(rows, cols)
+        is_xy, stats = cna.compare_sex_chromosomes(i["hapX"], None)
+        auto_l = cna.autosomes()["log2"].values
+
+        def raw(vals):
+            try:
+                stat = median_test(auto_l, vals, ties="ignore", lambda_="log-likelihood")[0]
+            except ValueError:
+                return None
+            return "nan" if not math.isfinite(stat) else frac(float(stat))
+        x = cna[cna.chromosome == cna.chr_x_label]["log2"].values
+        y = cna[cna.chromosome == cna.chr_y_label]["log2"].values
+        fx, mx = (-1, 0) if i["hapX"] else (0, 1)
+        st = {"xF": raw(x + fx), "xM": raw(x + mx)}
+        if len(y):
+            st.update(yF=raw(y + 3), yM=raw(y + 0))
+        est = None
+        if i.get("with_w"):
+            # the location estimates the weighted branch of compare_to_auto works with (the real weighted_median)
+            from cnvlib import descriptives
+            wm = lambda v, w: frac(float(descriptives.weighted_median(v, w)))
+            aw = cna.autosomes()["weight"].values
+            xw = cna[cna.chromosome == cna.chr_x_label]["weight"].values
+            yw = cna[cna.chromosome == cna.chr_y_label]["weight"].values
+            est = {"A": wm(auto_l, aw), "XF": wm(x + fx, xw), "XM": wm(x + mx, xw)}
+            if len(y):
+                est.update(YF=wm(y + 3, yw), YM=wm(y + 0, yw))
+        lr = stats["chrx_male_lr"]
+        rep = commands.do_sex([cna], i["hapX"], None)
+        xx = cna.guess_xx(i["hapX"], verbose=False)
+        return {"is_male": bool(is_xy), "chrx_male_lr": None if not math.isfinite(lr) else frac(float(lr)),
+                "report": str(rep["sex"].iat[0]), "guess_xx": bool(xx), "stats": st, "est": est,
+                "columns": list(rep.columns), "nrep": len(rep)}
     if op == "sex":
         from scipy.stats import median_test
         cols = ["chromosome", "start", "end", "gene", "log2"]
@@ -330,6 +440,15 @@ def to_line(case, impl):
     err = isinstance(impl, dict) and "__error__" in impl
     if op == "sex_oracle":
         return {"op": "sex_oracle", "in": {}}
+    if op == "sex_margin":
+        rows = [[r[0], r[1], r[2], frac(r[3]), None] for r in i["rows_f"]]
+        base = {"rows": rows, "hapX": i["hapX"], "female": i["female"], "a": i["a"], "d": i["d"], "stats": {}}
+        if err or any(v == "nan" for v in impl["stats"].values()):
+            return {"op": "sex_margin", "in": base}
+        base["stats"] = impl["stats"]
+        if impl.get("est"):
+            base["est"] = impl["est"]
+        return {"op": "sex_margin", "in": base, "impl": {"is_male": impl["is_male"], "report": impl["report"]}}
     if op == "sex":
         rows = [[r[0], r[1], r[2], frac(r[3]), None] for r in i["rows_f"]]
         base = {"rows": rows, "hapX": i["hapX"], "par": i["par"], "weighted": False}
@@ -362,6 +481,29 @@ def judge(case, impl, resp):
         return spec, [], None
     spec = list(resp.get("spec") or [])
     dis = []
+    if op == "sex_margin":
+        if any(v == "nan" for v in impl["stats"].values()):
+            return [], [], "Mood statistic not finite"
+        out = resp["out"]
+        # the report and guess_xx are the decision, whatever it is (one row per sample, the documented columns)
+        if impl["report"] != ("Male" if impl["is_male"] else "Female") or impl["guess_xx"] == impl["is_male"] \
+                or impl["columns"] != ["sample", "sex", "X_logratio", "Y_logratio"] or impl["nrep"] != 1:
+            dis.append(f"sex report / guess_xx differ from compare_sex_chromosomes: {impl['report']} {impl['guess_xx']} {impl['is_male']}")
+        if impl.get("est") and out["rows_within"] and not out["hyp"] and Fraction(case["in"]["d"]) < Fraction(2499, 10000):
+            dis.append("a weighted median lies outside the range of its data (bins within the margin, estimates not)")
+        if out["deg_mismatch"]:
+            dis.append(f"median_test raised on other tables than the model's degenerate ones: {out['deg_mismatch']} {out['tables']}")
+        if Fraction(resp["slack"]) < Fraction(1, 10 ** 9):
+            # knife-edge of the comparison `score > 1`; inside the margin on the theorem's path the score is
+            # provably away from 1, so nothing is skipped there
+            return spec, dis, None if (out["hyp"] and out["all_degenerate"]) else "score within 1e-9 of 1"
+        if out["is_male"] != impl["is_male"]:
+            dis.append(f"is_male model {out['is_male']} impl {impl['is_male']}")
+        if impl["chrx_male_lr"] is not None:
+            a, b = float(Fraction(impl["chrx_male_lr"])), float(Fraction(out["chrx_male_lr"]))
+            if abs(a - b) > 1e-9 * max(1, abs(b)):
+                dis.append(f"chrx_male_lr model {b} impl {a}")
+        return spec, dis, None
     if op == "sex":
         if any("nan" in v for v in impl["params"].values()):
             return [], [], "Mood statistic not finite"
